@@ -25,6 +25,8 @@ anything else than these rewrites:
   N6b a second `v = E` under a first one that still holds is dropped; `v = A; if c: v = B` is `v = B if c else A`; `v = E; return f(v)`
       is `return f(E)`; `True if a else b` is `a or b` for truth-valued a, b (and the three siblings); `d.update({k: v for k, v in e.items()})`
       is `d.update(e)`;
+  N6f a statement behind an if-chain that consumes a local every staying arm ends by computing joins the arms; a local every binding
+      of which is directly followed by the statement holding its only read is substituted there;
   N6c a function defined inside the function and only ever called by name (one returned expression, a decision list, or a
       straight-line procedure) is substituted at its calls;
   N6d a pure search with a found-flag (`for..: for..: if c: <acts>; flag = True; break` / `if flag: break`): the acts are done right
@@ -630,6 +632,72 @@ def _leaf_arms(s: ast.If):
         return out
 
 
+def _distributes(fn, s: ast.If, staying, rest) -> bool:
+    """Every arm of `s` that stays ends with `v = <expr>` for one local v, `rest[0]` reads v, and v is read nowhere else."""
+    lasts = []
+    for o, fld in staying:
+        arm = [x for x in getattr(o, fld) if not isinstance(x, ast.Pass)]
+        if not arm or not (isinstance(arm[-1], ast.Assign) and len(arm[-1].targets) == 1 and isinstance(arm[-1].targets[0], ast.Name)):
+            return False
+        lasts.append(arm[-1])
+    names = {a.targets[0].id for a in lasts}
+    if len(names) != 1:
+        return False
+    if all(len([x for x in getattr(o, fld) if not isinstance(x, ast.Pass)]) == 1 for o, fld in staying) and len(staying) == len(_leaf_arms(s)) == 2:
+        return False  # `if c: v = a else: v = b` is a conditional expression (handled below)
+    v = next(iter(names))
+    loads_here = [n for n in ast.walk(rest[0]) if isinstance(n, ast.Name) and n.id == v and isinstance(n.ctx, ast.Load)]
+    if len(loads_here) != 1:
+        return False
+    all_loads = [n for n in ast.walk(fn) if isinstance(n, ast.Name) and n.id == v and isinstance(n.ctx, ast.Load)]
+    all_stores = [n for n in ast.walk(fn) if isinstance(n, ast.Name) and n.id == v and isinstance(n.ctx, ast.Store)]
+    return len(all_loads) == 1 and len(all_stores) == len(lasts)
+
+
+def _inline_adjacent_webs(fn) -> bool:
+    """A local every binding of which (`v = E`) is directly followed by a statement that holds its only read: E goes there."""
+    changed = False
+    loads: Dict[str, List[ast.Name]] = {}
+    stores: Dict[str, List[ast.Name]] = {}
+    for n in ast.walk(fn):
+        if isinstance(n, ast.Name):
+            (stores if isinstance(n.ctx, (ast.Store, ast.Del)) else loads).setdefault(n.id, []).append(n)
+    params = {a.arg for a in fn.args.args + fn.args.kwonlyargs + fn.args.posonlyargs}
+    for v, sts in stores.items():
+        if v in params or len(sts) < 2 or len(loads.get(v, [])) != len(sts):
+            continue
+        pairs = []
+        for owner, f, b in _blocks(fn):
+            for i, st in enumerate(b):
+                if isinstance(st, ast.Assign) and len(st.targets) == 1 and isinstance(st.targets[0], ast.Name) and st.targets[0].id == v:
+                    if i + 1 >= len(b):
+                        pairs = None
+                        break
+                    nxt = b[i + 1]
+                    heads = canon._own_exprs(nxt) if not isinstance(nxt, (ast.For, ast.While, ast.If)) else []
+                    uses = [n for h in heads for n in ast.walk(h) if isinstance(n, ast.Name) and n.id == v and isinstance(n.ctx, ast.Load)]
+                    first = next((n for h in heads for n in canon.walk_order(h) if isinstance(n, (ast.Name, ast.Call))), None)
+                    if len(uses) != 1 or any(isinstance(n, (ast.Lambda, ast.GeneratorExp, ast.ListComp, ast.DictComp, ast.SetComp)) for h in heads for n in ast.walk(h)):
+                        pairs = None
+                        break
+                    impure = canon.roots_attrs(st.value)[2]
+                    if impure and uses[0] is not first:
+                        pairs = None
+                        break
+                    pairs.append((b, st, nxt, uses[0]))
+            if pairs is None:
+                break
+        if not pairs or len(pairs) != len(sts):
+            continue
+        for b, st, nxt, use in pairs:
+            canon._replace(nxt, use, st.value)
+            b.remove(st)
+        ast.fix_missing_locations(fn)
+        changed = True
+        break
+    return changed
+
+
 def _ifs(fn) -> bool:
     changed = _neq_orientation(fn)
     for owner, f, b in list(_blocks(fn)):
@@ -651,6 +719,12 @@ def _ifs(fn) -> bool:
                         arm = getattr(o, fld)  # mutated in place: other traversals hold this very list
                         arm[:] = [x for x in arm if not isinstance(x, ast.Pass)] + rest
                         del b[i + 1:]
+                        changed = True
+                    elif len(staying) >= 2 and isinstance(rest[0], (ast.Assign, ast.Expr)) and _distributes(fn, s, staying, rest):
+                        # every staying arm ends by computing a local that only the next statement consumes: that statement joins the arms
+                        for o, fld in staying:
+                            getattr(o, fld).append(_clone_stmt(rest[0]))
+                        del b[i + 1]
                         changed = True
                     elif isinstance(rest[0], JUMPS):
                         # a jump right behind the if: every arm that stays ends with it
@@ -1378,6 +1452,7 @@ def nf_text(fn: ast.AST, sigs: Optional[Dict[str, List[str]]] = None, inline: bo
         changed |= _loops(f)
         _scope_binders(f, binder_counter)  # comprehensions made from loops get their own binders too
         changed |= _inline_before_return(f)
+        changed |= _inline_adjacent_webs(f)
         changed |= _conditional_overwrite(f)
         changed |= _hoist_hit_body(f)
         changed |= _merge_same_test_ifs(f)
